@@ -75,6 +75,22 @@ CLAIMED = {
                      'and stale-marker faults, content and sort-key reference models',
         'design_ref': 'DESIGN.md section 4 (C05)',
     },
+    'C17': {
+        'text': '2-4 real caller threads on a shared world of read-only graphs/trees/models/codecs under a seeded baton scheduler '
+                '(pre-emption at penman line events): per-operation results must equal a sequential reference execution and '
+                'structural digests of every shared object must equal their pristine values at every context switch and after '
+                'every operation; asynchronous cancellation at sampled (thorough: every) lines and recursion-limit squeeze with '
+                're-issue; pickle, fork and spawn transport; logging level as a knob; every batch re-executed in fresh '
+                'interpreters under other hash seeds; `python -m penman` child processes under two hash seeds.',
+        'note': 'Trusts: sys.settrace line events as pre-emption points (stdlib frames atomic), the sequential execution of the '
+                'same code as the reference (consistent changes never alarm), CPython 3.12 with the GIL only. In-place operations '
+                'are applied only to results a client derived itself; aliased sub-objects (marker lists, Tree.metadata) are not '
+                'mutated directly.',
+        'technique': SIM + 'baton-passing real threads with sys.settrace pre-emption under a seeded scheduler, injected '
+                     'cancellation / recursion exhaustion, pickle-fork-spawn transport, hash-seed replicas, refinement against a '
+                     'sequential reference plus argument digests at every context switch',
+        'design_ref': 'DESIGN.md section 4 (C17)',
+    },
     'C15': {
         'text': 'Seeded histories of |, |=, -, -= (incl. self-application), top assignment and construction on a heap of up to '
                 'four graphs with results stored back; every slot (result, operands, bystanders) is compared with a reference '
@@ -102,7 +118,7 @@ NOT_APPLICABLE = {
     'C18': 'pure string functions (quote/evaluate/type)',
     'C19': 'pure parse/format pair on triple conjunctions',
 }
-PENDING = {k: 'check under construction in this round (will be claimed; see DESIGN.md section 4)' for k in ['C17']}
+PENDING = {}
 
 
 def main():
